@@ -10,11 +10,17 @@ import OidcModel.Model.OP
 /-- Go's `+` on strings (error texts handed to the unauthorized handler) -/
 instance : Add String := ⟨String.append⟩
 
+/-- A cookie key AS CONFIGURED: the bytes the application hands to `NewCookieHandler` (`[]` = nil: no encryption).
+    Two keys are "the same key" exactly when they are the same byte string. -/
+abbrev CookieKey := List Nat
+
 /-- A cookie value as the browser holds it.  Dolev-Yao: a value is either the output of
     `securecookie.Encode` under a (hash key, block key) pair for a cookie name, or any other string
-    (`plain`: garbage, truncated or tampered values, values of unrelated cookies). -/
+    (`plain`: garbage, truncated or tampered values, values of unrelated cookies).
+    The keys inside the term are the byte strings `securecookie.New` was handed (symbolic MAC / cipher:
+    a MAC made under one byte string verifies under no other byte string). -/
 inductive CookieVal
-  | minted (hashKey blockKey : Nat) (name value : String)
+  | minted (hashKey blockKey : CookieKey) (name value : String)
   | plain (raw : String)
   deriving DecidableEq, Repr, Inhabited
 
@@ -33,6 +39,7 @@ structure Cookie where
   SameSite : Int := 0
   deriving DecidableEq, Repr, Inhabited
 
+def SameSiteLaxMode : Int := 2
 def StatusFound : Int := 302
 def StatusUnauthorized : Int := 401
 end Http
@@ -40,8 +47,9 @@ end Http
 /-- `securecookie.SecureCookie`: the key pair and, as an oracle, whether `Encode` succeeds for a
     (name, value) (length limit, serialisation); theorems quantify over every such predicate. -/
 structure SecureCookie where
-  hashKey : Nat := 0
-  blockKey : Nat := 0
+  hashKey : CookieKey := []
+  blockKey : CookieKey := []
+  maxAge : Int := 2592000
   encodable : String → String → Bool := fun _ _ => true
   deriving Inhabited
 
@@ -59,7 +67,15 @@ def Decode (s : SecureCookie) (name : String) (v : CookieVal) : Go.R String :=
     if hk == s.hashKey && bk == s.blockKey && n == name then .ok val
     else .error "securecookie: the value is not valid"
   | .plain _ => .error "securecookie: the value is not valid"
+/-- `s.MaxAge(n)`: the maximum age `Decode` accepts; the keys are not touched -/
+def MaxAge (s : SecureCookie) (n : Int) : SecureCookie := { s with maxAge := n }
 end SecureCookie
+
+namespace Hand
+/-- `securecookie.New(hashKey, blockKey)`: the codec holds exactly the two byte strings it is handed (gorilla/securecookie
+    v1.1.2 `New`: `hashKey: hashKey, blockKey: blockKey`, no copy, no normalisation) -/
+def securecookieNew (hashKey blockKey : CookieKey) : SecureCookie := { hashKey := hashKey, blockKey := blockKey }
+end Hand
 
 /-- `httphelper.CookieHandler` -/
 structure CookieHandler where
@@ -70,6 +86,9 @@ structure CookieHandler where
   domain : String := ""
   path : String := "/"
   deriving Inhabited
+
+/-- `httphelper.CookieHandlerOpt` = `func(*CookieHandler)`: what the option leaves behind the pointer -/
+abbrev CookieHandlerOpt := CookieHandler → CookieHandler
 
 /-- the callback / login request as the handlers read it -/
 structure HttpReq where
